@@ -6,6 +6,8 @@ import J1939.Props.C10
 #print axioms J1939.Props.C10.c10_rts_bam_keep_snd
 #print axioms J1939.Props.C10.c10_tickRcv_keeps_snd
 #print axioms J1939.Props.C10.c10_abort_releases
+#print axioms J1939.Props.C10.sendPgn_get?_other
+#print axioms J1939.Props.C10.c10_send_keeps_other_pairs
 #print axioms J1939.Props.C10.c10_22_deleted_returns_number
 #print axioms J1939.Props.C10.c10_22_cons_init
 #print axioms J1939.Props.C10.c10_22_conservation
